@@ -73,12 +73,19 @@ Theorem c09_failed_commit_absent : forall o s k w ws,
 Proof. exact failed_commit_absent. Qed.
 Print Assumptions c09_failed_commit_absent.
 
-(* mirrored from the code as it is (observation, outside what C09 demands; see notes/C09.md): the refused operation's
-   changes stay pending in the live process and the next request's COMMIT applies them *)
-Theorem c09_refused_commit_pending_applied_by_next : forall ws ws2 s,
-  recover (map Write ws ++ [CommitFail; Ack] ++ map Write ws2 ++ [Commit; Ack]) s = apply_writes (ws ++ ws2) s.
-Proof. exact refused_commit_pending_applied_by_next. Qed.
-Print Assumptions c09_refused_commit_pending_applied_by_next.
+(* after a refused COMMIT nothing of the item is applied by ANY later request (any continuation `tr` of the run) *)
+Theorem c09_refused_commit_never_applied_later : forall o s w ws tr,
+  writes_of o s = Some (w :: ws) ->
+  recover (trace_of_failed_commit o s ++ tr) s = recover tr s.
+Proof. exact refused_commit_never_applied_later. Qed.
+Print Assumptions c09_refused_commit_never_applied_later.
+
+(* FIXED FINDING C09-refused-commit-left-pending (/repo 52cb625), regression witness about the OLD run (no rollback after
+   the refused COMMIT): the next request's COMMIT applied the refused operation's changes *)
+Theorem c09_old_refused_commit_applied_by_next_refuted : forall ws ws2 s,
+  recover (old_failed_commit_trace ws ++ map Write ws2 ++ [Commit; Ack]) s = apply_writes (ws ++ ws2) s.
+Proof. exact old_refused_commit_applied_by_next. Qed.
+Print Assumptions c09_old_refused_commit_applied_by_next_refuted.
 
 (* why the order matters: rolling back and committing again acknowledges an operation of which nothing is stored *)
 Theorem c09_retry_after_rollback_refuted : forall ws s,
